@@ -238,7 +238,7 @@ def parse_log(text, res):
 
 def kani_cmd(h, extra=()):
 	cmd = ["cargo", "kani", "-p", h.crate, "--harness", h.full, "--exact", "-Z", "stubbing", "--target-dir", TARGET]
-	cmd += list(h.kani_args) + list(extra)
+	cmd += list(h.kani_args) + list(extra) + os.environ.get("VERIF_KANI_ARGS", "").split()
 	cb = list(h.cbmc_args)
 	if h.unwindset_resolved:
 		cb += ["--unwindset", ",".join(f"{lid}:{n}" for lid, n in h.unwindset_resolved)]
